@@ -276,7 +276,54 @@ def r14_4(ctx):
                 ctx.undecided('R14.4', cg.qual, 'each candidate flip starts from the unflipped grid', st, 'origin of %s not recognised' % name)
 
 
+def r14_5(ctx):
+    """slice_indices widens the flip tuple of a face (one flag per tangential axis) to one flag per axis of the patch by
+    inserting False AT POSITION ax.  The expression that feeds the flip loop is evaluated for a face of a 3D patch
+    (flip = (F0, F1), ax = 0, 1, 2) and of a 2D patch (flip = (F0,), ax = 0, 1)."""
+    from sa import resolve
+    f = ctx.prog.func(A + '.slice_indices')
+    loops = [l for l in ast.walk(f.node) if isinstance(l, ast.For) and isinstance(l.iter, ast.Call) and call_name(l.iter) == 'enumerate'
+             and l.iter.args and any(isinstance(x, ast.Name) and 'flip' in x.id.lower() for x in ast.walk(l.iter.args[0]))]
+    if not loops:
+        # a filtering generator: for i in (k for k, flp in enumerate(X) if flp)
+        loops = [g for g in ast.walk(f.node) if isinstance(g, ast.comprehension) and isinstance(g.iter, ast.Call) and call_name(g.iter) == 'enumerate'
+                 and g.iter.args and any(isinstance(x, ast.Name) and 'flip' in x.id.lower() for x in ast.walk(g.iter.args[0]))]
+    if not loops:
+        ctx.undecided('R14.5', f.qual, 'flip loop', f.node, 'loop over the widened flip tuple not recognised')
+        return
+    it = loops[0].iter.args[0]
+    at = loops[0] if isinstance(loops[0], ast.stmt) else resolve.stmt_of(loops[0].iter)
+    e = it
+    # the straight-line assignments before the loop (same block, closest last) are executed symbolically
+    pre = [s_ for s_, _b in resolve._predecessors(at)][::-1]
+    verdict, detail = True, []
+    for flip in (('F0', 'F1'), ('F0',)):
+        for ax in range(len(flip) + 1):
+            want = flip[:ax] + (False,) + flip[ax:]
+            try:
+                env = {'flip': flip, 'ax': ax}
+                for s_ in pre:
+                    if isinstance(s_, ast.Assign) and len(s_.targets) == 1 and isinstance(s_.targets[0], ast.Name):
+                        try:
+                            env[s_.targets[0].id] = guards.eval_expr(s_.value, env)
+                        except Exception:
+                            env.pop(s_.targets[0].id, None) if s_.targets[0].id not in ('flip', 'ax') else None
+                got = guards.eval_expr(e, env)
+            except Exception:
+                verdict = None if verdict else verdict
+                detail.append('ax=%d: ?' % ax)
+                continue
+            if tuple(got) != want:
+                verdict = False
+                detail.append('flip=%s ax=%d: %s' % (flip, ax, tuple(got)))
+    ctx.decide('R14.5', f.qual, 'widened flip = ' + src(e)[:80] + (' [' + '; '.join(detail[:3]) + ']' if detail else ''), verdict, at,
+               'False is inserted at the position of the face axis' if verdict else
+               'the flag of the face axis is not inserted at position ax for every axis: the tangential flips are attached to the wrong axes, '
+               'so the two faces of an interface are paired in the wrong orientation (3D interface across the middle axis)', definite=True)
+
+
 def run(ctx):
+    r14_5(ctx)
     r14_1(ctx)
     r14_2(ctx)
     r14_3(ctx)
